@@ -228,12 +228,71 @@ pub fn run_pipeline_json(
     // an introspection result lists are not faults)
     let cerrs = guard(|| check_type_system_document(&sdoc)).map_err(|p| panic_failure("check_type_system_document", &p, detail.clone()))?;
     let invalid = cerrs.iter().any(|e| !matches!(e.message, nitrogql_checker::CheckErrorMessage::UnscoUnsco));
-    if invalid && gate_invalid_schema {
+    // the open finding is about results that are self-consistent (every reference names a listed type of a kind that
+    // may stand there - what schema_from_introspection_json itself verifies) but not valid type systems; a result
+    // that is not even self-consistent and was accepted all the same goes on to the printers
+    if invalid && gate_invalid_schema && introspection_self_consistent(json_text) {
         reached.excluded_invalid_json_schema = true;
         return Ok(reached);
     }
     reached.schema_checked = true;
     ops_and_generate(&sdoc, Some(&value), 1, op_files, &files, config, detail, reached)
+}
+
+/// reference version of the loader's consistency rule: root types are listed objects; field types are listed output
+/// types, argument / input field types listed input types, `interfaces` listed interfaces, `possibleTypes` listed
+/// objects (following `ofType` through LIST and NON_NULL only). Shapes the deserialiser rejects anyway are skipped.
+pub fn introspection_self_consistent(json_text: &str) -> bool {
+    let Ok(v) = serde_json::from_str::<Value>(json_text) else { return true };
+    let sch = &v["__schema"];
+    let Some(types) = sch["types"].as_array() else { return true };
+    let mut kinds: HashMap<&str, &str> = HashMap::new();
+    for t in types {
+        if let (Some(n), Some(k)) = (t["name"].as_str(), t["kind"].as_str()) {
+            kinds.insert(n, k);
+        }
+    }
+    const OUT: &[&str] = &["SCALAR", "OBJECT", "INTERFACE", "UNION", "ENUM"];
+    const INP: &[&str] = &["SCALAR", "ENUM", "INPUT_OBJECT"];
+    let name_ok = |n: &str, allowed: &[&str]| kinds.get(n).map(|k| allowed.contains(k)).unwrap_or(false);
+    let ref_ok = |r: &Value, allowed: &[&str]| -> bool {
+        let mut r = r;
+        while matches!(r["kind"].as_str(), Some("LIST") | Some("NON_NULL")) {
+            if r["ofType"].is_null() {
+                return true;
+            }
+            r = &r["ofType"];
+        }
+        match r["name"].as_str() {
+            Some(n) => name_ok(n, allowed),
+            None => true,
+        }
+    };
+    let inputs_ok = |vals: &Value| vals.as_array().map(|a| a.iter().all(|x| ref_ok(&x["type"], INP))).unwrap_or(true);
+    for k in ["queryType", "mutationType", "subscriptionType"] {
+        if let Some(n) = sch[k]["name"].as_str() {
+            if !name_ok(n, &["OBJECT"]) {
+                return false;
+            }
+        }
+    }
+    for t in types {
+        for f in t["fields"].as_array().into_iter().flatten() {
+            if !ref_ok(&f["type"], OUT) || !inputs_ok(&f["args"]) {
+                return false;
+            }
+        }
+        if t["interfaces"].as_array().into_iter().flatten().any(|i| !ref_ok(i, &["INTERFACE"])) {
+            return false;
+        }
+        if t["possibleTypes"].as_array().into_iter().flatten().any(|i| !ref_ok(i, &["OBJECT"])) {
+            return false;
+        }
+        if !inputs_ok(&t["inputFields"]) {
+            return false;
+        }
+    }
+    sch["directives"].as_array().into_iter().flatten().all(|d| inputs_ok(&d["args"]))
 }
 
 #[allow(clippy::too_many_arguments)]
@@ -1206,6 +1265,10 @@ const JSON_KINDS: &[&str] = &["SCALAR", "OBJECT", "INTERFACE", "UNION", "ENUM", 
 
 /// One structural mutation of an introspection result; returns its label.
 fn mutate_introspection(ch: &mut Choices, v: &mut Value) -> &'static str {
+    if !v["__schema"].is_object() {
+        // an earlier mutation replaced the whole member: nothing left to mutate structurally
+        return "schema-member-destroyed";
+    }
     let is_type_ref = |x: &Value| x.get("kind").is_some() && x.get("ofType").is_some() && x.get("fields").is_none();
     let is_named_ref = |x: &Value| x.get("kind").is_some() && x.get("ofType").is_some() && x.get("fields").is_none() && x.get("name").map(|n| n.is_string()).unwrap_or(false);
     let pick_path = |ch: &mut Choices, v: &Value, pred: &dyn Fn(&Value) -> bool| -> Option<Vec<String>> {
@@ -1213,13 +1276,26 @@ fn mutate_introspection(ch: &mut Choices, v: &mut Value) -> &'static str {
         json_paths(v, pred, &mut vec![], &mut out);
         if out.is_empty() { None } else { Some(out[ch.below(out.len())].clone()) }
     };
-    match ch.below(12) {
+    match ch.below(13) {
         0 => {
             // a reference to a type the result does not list
             if let Some(p) = pick_path(ch, v, &is_named_ref) {
                 json_at(v, &p).unwrap()["name"] = json!("Missing");
             }
             "dangling-type-reference"
+        }
+        12 => {
+            // a named reference that also carries an inner type (only LIST and NON_NULL have one): the name counts
+            if let Some(p) = pick_path(ch, v, &is_named_ref) {
+                let r = json_at(v, &p).unwrap();
+                let old = r["name"].clone();
+                let kind = r["kind"].clone();
+                r["ofType"] = json!({"kind": kind, "name": old, "ofType": null});
+                if ch.flip() {
+                    r["name"] = json!("Missing");
+                }
+            }
+            "named-reference-with-inner-type"
         }
         1 => {
             // a reference to an existing type of another kind (the reference keeps its `kind` member)
@@ -1360,6 +1436,20 @@ fn json_schema_case(case: &mut Case, cfgs: &[Config]) -> CaseResult {
         }
         _ => {
             let mut v: Value = serde_json::from_str(&js).expect("introspect() renders JSON");
+            // servers differ in how they render members that do not apply to a kind (`fields` of a union, ...): null,
+            // or an empty list - half of the results use the latter
+            if mch.flip() {
+                labels.push("inapplicable-members-empty");
+                if let Some(types) = v["__schema"]["types"].as_array_mut() {
+                    for t in types {
+                        for k in ["fields", "interfaces", "possibleTypes", "enumValues", "inputFields"] {
+                            if t.get(k).map(|x| x.is_null()).unwrap_or(false) {
+                                t[k] = json!([]);
+                            }
+                        }
+                    }
+                }
+            }
             let n = 1 + mch.below(2);
             for _ in 0..n {
                 labels.push(mutate_introspection(&mut mch, &mut v));
@@ -1491,6 +1581,12 @@ pub fn run(env: &Env) -> i32 {
         let of = vec![(PathBuf::from("/p/o.graphql"), "query Q { __typename }\n".to_string())];
         run_pipeline_json(js, &of, &cfgs[0], &json!({"schema_json": js}), false).map(|_| ())
     });
+    rep.probe("C08-introspection-unlisted-type", || {
+        // the unlisted name sits on a named reference that also has an `ofType` (which only wrappers have)
+        let js = r#"{"__schema":{"queryType":{"name":"Query"},"mutationType":null,"subscriptionType":null,"directives":[],"types":[{"kind":"OBJECT","name":"Query","description":null,"fields":[{"name":"a","description":null,"args":[],"type":{"kind":"OBJECT","name":"Missing","ofType":{"kind":"OBJECT","name":"Query","ofType":null}},"isDeprecated":false,"deprecationReason":null}],"inputFields":null,"interfaces":[],"enumValues":null,"possibleTypes":null}]}}"#;
+        let of = vec![(PathBuf::from("/p/o.graphql"), "query Q { __typename }\n".to_string())];
+        run_pipeline_json(js, &of, &cfgs[0], &json!({"schema_json": js}), false).map(|_| ())
+    });
     rep.probe("C08-user-defined-skip-without-if", || project_probe("directive @skip on FIELD\ndirective @include(x: Int) on FIELD\ntype Query { id: ID }\n", "query Q { id @skip a: id @include(x: 1) }\n"));
     rep.probe("C08-introspection-invalid-schema-unchecked", || {
         // object Dog lists interface Pet but lacks Pet's field `name`: not a valid schema; `check` is not run on
@@ -1517,7 +1613,7 @@ pub fn run(env: &Env) -> i32 {
     rep.campaign("soup-in-project", env.cases(3_000, 150_000), (60, 2500), move |case| pipeline_case(case, "soup-in-project", 4, c));
     rep.campaign("parsers", env.cases(30_000, 1_500_000), (0, 900), parser_only_case);
     rep.campaign("config-text", env.cases(20_000, 500_000), (0, 200), config_case);
-    rep.note("campaign introspection-json: the schema text is an introspection result (what a `.json` schema file holds): the JSON a conformant server returns for a generated model, unchanged (1/8), character-mutated (1/8) or with 1-2 structural mutations (dangling / wrong-kind type references, removed or duplicated types and elements, changed kinds, nulled or retyped members, changed root types, names that are no names, mangled default values, emptied arrays); operations are valid for the unmutated model. Everything the CLI runs for such a schema is run: schema_from_introspection_json, type_system_to_ast, operation check against the schema value and, if it reports nothing, all printers. Non-trivial: a mutated JSON that is accepted");
+    rep.note("campaign introspection-json: the schema text is an introspection result (what a `.json` schema file holds): the JSON a conformant server returns for a generated model, unchanged (1/8), character-mutated (1/8) or with 1-2 structural mutations (dangling / wrong-kind type references, named references with an inner type, removed or duplicated types and elements, changed kinds, nulled or retyped members, changed root types, names that are no names, mangled default values, emptied arrays); operations are valid for the unmutated model. Everything the CLI runs for such a schema is run: schema_from_introspection_json, type_system_to_ast, operation check against the schema value and, if it reports nothing, all printers. Non-trivial: a mutated JSON that is accepted");
     rep.campaign("introspection-json", env.cases(6_000, 300_000), (60, 2500), move |case| json_schema_case(case, c));
     rep.shrink_iters = Some(150);
     let base = work_dir("c08");
